@@ -17,6 +17,23 @@ MCDesc ==
 
 View == coreView
 
+\* ---- scenario scripts (INIT ScriptInit) ------------------------------------------
+CONSTANT ScriptName
+LeafCmd == IF ValDesc.t = "mv" THEN [c |-> "write", v |-> 1]
+           ELSE IF ValDesc.t = "or" THEN [c |-> "add", m |-> 1]
+           ELSE [c |-> "up", k |-> 1, sub |-> IF ValDesc.of.t = "mv" THEN [c |-> "write", v |-> 1] ELSE [c |-> "add", m |-> 1]]
+Up(k) == [c |-> "up", k |-> k, sub |-> LeafCmd]
+Script ==
+  CASE ScriptName = "none" -> <<>>
+    \* two key removes built from ONE whole-map read (same clock, different keys) by a third party
+    [] ScriptName = "same_ctx_key_removes" ->
+         << <<"gen", 1, Up(1)>>, <<"gen", 1, Up(2)>>, <<"dlv", 2, 1>>, <<"dlv", 2, 2>>,
+            <<"gen", 2, [c |-> "rmv", k |-> 1]>>, <<"gen", 2, [c |-> "rmv", k |-> 2]>> >>
+    \* the same actor updates a key twice around a concurrent remove that saw only the first update
+    [] ScriptName = "update_rm_update" ->
+         << <<"gen", 1, Up(1)>>, <<"dlv", 2, 1>>, <<"gen", 2, [c |-> "rm", k |-> 1]>>, <<"gen", 1, Up(1)>> >>
+ScriptInit == InitAfter(Script)
+
 \* JSON-friendly renderings: partial functions over Keys become total sequences of 0/1-element tuples
 RECURSIVE ProjVal(_, _)
 ProjVal(d, v) ==
